@@ -1,6 +1,9 @@
 (** Declarative specification of the Orswot: the state of a replica as a
     function of the history and of the SET of ops the replica has learned.
-    Computable (the monitors evaluate it on the implementation's observations). *)
+    Computable (the monitors evaluate it on the implementation's observations).
+
+    Every component is defined through a lookup function over a finite key set
+    ([fn_map]), so that its lookup lemma is immediate. *)
 From Crdt Require Import model.Orswot spec.System.
 Local Open Scope N_scope.
 
@@ -10,13 +13,22 @@ Notation ohist := (list (oprec oop)) (only parsing).
 Definition known_ops {Op} (H : list (oprec Op)) (K : gset nat) : list Op :=
   omap (λ p : nat * oprec Op, if bool_decide (p.1 ∈ K) then Some (op_val p.2) else None) (imap pair H).
 
+(** a finite map given by a function on a finite key set *)
+Definition fn_map `{Countable K} {V} (keys : gset K) (f : K → option V) : gmap K V :=
+  map_imap (λ k _, f k) (gset_to_gmap () keys).
+
+(** greatest counter of actor [a] among the dots [ds] (0 if none) *)
+Definition max_ctr (ds : list dot) (a : N) : N :=
+  foldr N.max 0 (omap (λ d, if decide (dactor d = a) then Some (dcounter d) else None) ds).
+
+(** the clock holding, per actor, the greatest counter of [ds]; no stored zero *)
+Definition dots_clock (ds : list dot) : vclock :=
+  fn_map (list_to_set (dactor <$> ds)) (λ a, let n := max_ctr ds a in if n =? 0 then None else Some n).
+
 Definition adds_of (os : list oop) : list (dot * list N) :=
   omap (λ o, match o with OAdd d ms => Some (d, ms) | _ => None end) os.
 Definition rms_of (os : list oop) : list (gmap N N * list N) :=
   omap (λ o, match o with ORm c ms => Some (c, ms) | _ => None end) os.
-
-(** per-actor maximum of a list of dots *)
-Definition dots_clock (ds : list dot) : vclock := foldl vapply ∅ ds.
 
 (** dot [d] of member [m] is covered by an applied remove of [m] *)
 Definition covered (rms : list (gmap N N * list N)) (m : N) (d : dot) : bool :=
@@ -24,33 +36,37 @@ Definition covered (rms : list (gmap N N * list N)) (m : N) (d : dot) : bool :=
              bool_decide (m ∈ r.2) && (dcounter d <=? vget r.1 (dactor d))) rms.
 
 (** the surviving add witnesses of [m] *)
-Definition live_dots (adds : list (dot * list N)) (rms : list (gmap N N * list N)) (m : N) : list dot :=
+Definition live_dots (os : list oop) (m : N) : list dot :=
   omap (λ a : dot * list N,
-          if bool_decide (m ∈ a.2) && negb (covered rms m a.1) then Some a.1 else None) adds.
+          if bool_decide (m ∈ a.2) && negb (covered (rms_of os) m a.1) then Some a.1 else None)
+       (adds_of os).
 
 Definition ospec_clock (os : list oop) : vclock := dots_clock (fst <$> adds_of os).
 
+(** the witness clock of member [m]: per-actor greatest surviving add dot *)
+Definition ospec_entry (os : list oop) (m : N) : vclock := dots_clock (live_dots os m).
+
 Definition ospec_entries (os : list oop) : gmap N (gmap N N) :=
-  let adds := adds_of os in
-  let rms := rms_of os in
-  let members : gset N := list_to_set (concat (snd <$> adds)) in
-  set_fold (λ m acc, let c := dots_clock (live_dots adds rms m) in
-                     if vis_empty c then acc else <[m := c]> acc) ∅ members.
+  fn_map (list_to_set (concat (snd <$> adds_of os)))
+         (λ m, let c := ospec_entry os m in if vis_empty c then None else Some c).
+
+(** members named by the applied removes with context [c] *)
+Definition rm_members (os : list oop) (c : vclock) : gset N :=
+  list_to_set (concat (omap (λ r : gmap N N * list N,
+                              if bool_decide (r.1 = c) then Some r.2 else None) (rms_of os))).
 
 (** pending removes: those whose context is not covered by the clock yet *)
 Definition ospec_deferred (os : list oop) : gmap (gmap N N) (gset N) :=
-  let clock := ospec_clock os in
-  foldl (λ acc r, if vle r.1 clock then acc
-                  else <[r.1 := default ∅ (acc !! r.1) ∪ list_to_set r.2]> acc)
-        ∅ (rms_of os).
+  fn_map (list_to_set (fst <$> rms_of os))
+         (λ c, if vle c (ospec_clock os) then None else Some (rm_members os c)).
 
-Definition ospec (H : list (oprec oop)) (K : gset nat) : orswot :=
-  let os := known_ops H K in
+Definition ospec_of (os : list oop) : orswot :=
   Orswot (ospec_clock os) (ospec_entries os) (ospec_deferred os).
+
+Definition ospec (H : list (oprec oop)) (K : gset nat) : orswot := ospec_of (known_ops H K).
 
 (** The sentence of property C04, as a decidable predicate on a replica's
     read: [m] is a member iff some applied add of [m] is not covered by the
     context of any applied remove of [m]. *)
 Definition c04_member (H : list (oprec oop)) (K : gset nat) (m : N) : bool :=
-  let os := known_ops H K in
-  match live_dots (adds_of os) (rms_of os) m with [] => false | _ => true end.
+  match live_dots (known_ops H K) m with [] => false | _ => true end.
